@@ -111,7 +111,6 @@ func (s *secureSession) Decrypt(r io.Reader) (io.Reader, error) {
 
 		var nonce [8]byte
 		binary.LittleEndian.PutUint64(nonce[:], s.decryptCount)
-		s.decryptCount++
 
 		lengthBytes := make([]byte, 2)
 		binary.LittleEndian.PutUint16(lengthBytes, uint16(length))
@@ -121,6 +120,9 @@ func (s *secureSession) Decrypt(r io.Reader) (io.Reader, error) {
 		if err != nil {
 			return nil, fmt.Errorf("Data encryption failed %s", err)
 		}
+
+		// Count a frame only after it has been verified
+		s.decryptCount++
 
 		buf.Write(decrypted)
 
